@@ -300,6 +300,20 @@ fn ec_one(path: &[(autosar_data::ElementName, autosar_data_specification::Elemen
             let choices = [lo, hi, if lo > 0 { lo - 1 } else { hi + 1 }, hi + 1, usize::MAX];
             let p = choices[rng.below(choices.len())];
             let before: Vec<ElementName> = cur.sub_elements().map(|e| e.element_name()).collect();
+            // without a position: moving a child into its own parent succeeds when the child may be there, and must keep the order
+            if rng.below(3) == 0 {
+                let r0 = cur.move_element_here(c);
+                stats[2] += 1;
+                let after0: Vec<ElementName> = cur.sub_elements().map(|e| e.element_name()).collect();
+                if r0.is_ok() != range.is_ok() { return Err(format!("move_element_here({}) into its own parent {} although calc_element_insert_range {} [parent {} children {:?}]", n, if r0.is_ok() { "succeeds" } else { "fails" }, if range.is_ok() { "succeeds" } else { "fails" }, cur.element_name(), before)); }
+                let mut kids: Vec<Vec<usize>> = Vec::new();
+                for se in cur.sub_elements() { if let Some((_, idx)) = t.find_sub_element(se.element_name(), vm) { kids.push(idx); } }
+                if after0.len() != before.len() || !ec_conform(t, &kids) { return Err(format!("after move_element_here({}) into its own parent the children are {:?} (were {:?}): not in specification order or not the same number", n, after0, before)); }
+            }
+            let before: Vec<ElementName> = cur.sub_elements().map(|e| e.element_name()).collect();
+            let range = cur.calc_element_insert_range(n, v);
+            let (lo, hi) = match &range { Ok((a, b)) => (*a, *b), Err(_) => (0, before.len()) };
+            let p = if p == usize::MAX { p } else { [lo, hi, if lo > 0 { lo - 1 } else { hi + 1 }, hi + 1][rng.below(4)] };
             let r = cur.move_element_here_at(c, p);
             stats[2] += 1;
             let after: Vec<ElementName> = cur.sub_elements().map(|e| e.element_name()).collect();
